@@ -335,8 +335,17 @@ def _worker_run(job):
     try:
         with np.errstate(all='ignore'):
             _MOD.run_shard(desc, R, _TIER)
-    except Exception:
-        return {'shard': idx, 'harness_error': traceback.format_exc(), 'desc': repr(desc)}
+    except Exception as e:
+        tb = traceback.format_exc()
+        if R.last is None or os.environ.get('VERIF_STRICT_HARNESS'):
+            return {'shard': idx, 'harness_error': tb, 'desc': repr(desc)}
+        # An exception escaped the oracle code while it was processing what the implementation returned for the last recorded
+        # point (it never happens on the pinned tree: every check is run there in both tiers).  The result could not even be
+        # interpreted against the property, which is reported as a violation at that point rather than as a broken harness;
+        # the rest of this shard is abandoned (counted in the evidence under extra.shards_aborted).
+        R.extra['shards_aborted'] += 1
+        R.viol('uninterpretable_result', {'exc': type(e).__name__}, R.last, tb[-1500:], None,
+               'the oracle raised while interpreting the result of the implementation at this point (shard %s abandoned)' % repr(desc)[:120])
     return R.export()
 
 
@@ -486,10 +495,12 @@ def finish(mod, tier, seed, tot, nshards, wall):
              dict(tot['skips']), nviol, len(known_seen), wall))
     for ln in lines:
         print(ln)
+    if nviol:
+        return 1            # reported violations take precedence: code broken badly enough can also starve a clause of in-domain points
     if harness_problem:
         sys.stderr.write('HARNESS ERROR: %s\n' % harness_problem)
         return 2
-    return 1 if nviol else 0
+    return 0
 
 
 def run_replay(mod, path):
